@@ -76,15 +76,18 @@ def score_to_json(s):
         parts = [[k, [[n.type, int(n.val), int(n.octave), frac_str(n.duration), n.mode, n.accident,
                        frac_str(Fraction(*n.amp.as_integer_ratio()) if isinstance(n.amp, float) else Fraction(n.amp))]
                       for n in m.notes]] for k, m in c.score.items()]
-        out.append([int(c.element), c.extension, int(c.tonality.degree), c.tonality.mode, int(c.tonality.octave),
-                    int(c.octave), parts])
+        row = [int(c.element), c.extension, int(c.tonality.degree), c.tonality.mode, int(c.tonality.octave),
+               int(c.octave), parts]
+        if type(c).__name__ == 'CustomChord':
+            row.append([[n.type, int(n.val), int(n.octave)] for n in c.notes])     # the tones, in the written order
+        out.append(row)
     return out
 
 
 def score_from_json(data):
     from musiclang import Score, Chord, Tonality, Note, Melody
     chords = []
-    for el, ext, deg, mode, toct, coct, parts in data:
+    for el, ext, deg, mode, toct, coct, parts, *custom in data:
         sc = {}
         for name, notes in parts:
             ns = []
@@ -92,7 +95,12 @@ def score_from_json(data):
                 q = core.to_frac(amp)
                 ns.append(Note(k, v, o, core.to_frac(d), mode=m, accident=a, amp=int(q) if q.denominator == 1 else float(q)))
             sc[name] = Melody(ns)
-        chords.append(Chord(el, extension=ext, tonality=Tonality(deg, mode, toct), score=sc, octave=coct))
+        if custom and custom[0]:
+            from musiclang import CustomChord
+            chords.append(CustomChord([Note(k, v, o, 1) for k, v, o in custom[0]], extension=ext, tonality=Tonality(deg, mode, toct),
+                                      score=sc, octave=coct))
+        else:
+            chords.append(Chord(el, extension=ext, tonality=Tonality(deg, mode, toct), score=sc, octave=coct))
     return Score(chords)
 
 
@@ -248,6 +256,18 @@ def rand_score(ctx, equal=None, referenced_only=False, kinds=None):
             continue
         return s
     return s
+
+
+def customised(rng, s):
+    """the same score with its chords turned into custom chords (a tonality called with its tones), the tones listed
+    in any order — not necessarily bottom-up (seed C11-5 sorted the pitch table of bass-tone notes, which only differs
+    from the written order for such chords)"""
+    from musiclang import CustomChord, Score, Note
+    out = []
+    for c in s.chords:
+        tones = [Note('s', v, rng.choice([0, 0, 1]), 1) for v in rng.sample(range(7), rng.randint(3, 4))]
+        out.append(CustomChord(tones, tonality=c.tonality, score=dict(c.score), octave=c.octave))
+    return Score(out)
 
 
 def rand_ops(rng, i):
@@ -480,6 +500,8 @@ def oracle(ctx):
         need_eq = any(o in NEEDS_EQUAL for o in ops)
         # mostly referenced scores (the domain), a share of arbitrary ones (the quantifier says "all scores")
         s = rand_score(ctx, equal=True if need_eq else None, referenced_only=rng.random() < 0.85)
+        if rng.random() < 0.06:
+            s = customised(rng, s)
         todo.append(J(s, ops, rng.choice(SPLIT_MAX)))
     for inp in todo:
         try:
